@@ -1,15 +1,15 @@
 CONSTANTS
-  Keys <- KeysFull
-  GScalars <- ScalarsFull
+  Keys <- KeysSmall
+  GScalars <- ScalarsSmall
   MaxDepth = 3
-  MaxNodes = 4
+  MaxNodes = 5
   Bases <- NoBases
   MaxFaults = 0
   RefNames <- RefNamesDef
   DropRule = ""
   Mode = "grammar"
 SPECIFICATION Spec
-
-
-
-
+INVARIANT Total
+INVARIANT TypingSound
+INVARIANT GrammarBound
+INVARIANT Emit
